@@ -13,6 +13,12 @@
 #include <ufw/endpoints.h>
 #include <ufw/length-prefix.h>
 
+/* the lenp_* functions of the header are the variable-length kind of the flenp_* family: every second call with
+ * that kind goes through them */
+static unsigned lp_toggle, lp_wrapped;
+#define LP(fn, k, ...) \
+    (((k) == LENP_VARIABLE && (lp_toggle++ & 1u)) ? (lp_wrapped++, lenp_##fn(__VA_ARGS__)) : flenp_##fn((k), __VA_ARGS__))
+
 const char *harness_name = "c13_lenp";
 
 static const char *kname[] = { "varint", "octet", "le16", "le32", "be16", "be32" };
@@ -226,7 +232,7 @@ enc_case(int k, int e, size_t len, size_t consumed, size_t extra, size_t freesp,
         fill(p, len, 1);
         LengthPrefixBuffer lpb;
         memset(&lpb, 0, sizeof lpb);
-        int rc = flenp_memory_encode(k, &lpb, p, len);
+        int rc = LP(memory_encode, k, &lpb, p, len);
         check_prefix_obj(key, ctx, rc, &lpb.prefix, k, len, valid);
         if (valid && rc == 0
             && (lpb.payload.data != p || lpb.payload.offset != 0 || lpb.payload.used != len
@@ -238,7 +244,7 @@ enc_case(int k, int e, size_t len, size_t consumed, size_t extra, size_t freesp,
     case E_MEM_SINK: {
         unsigned char *p = vh_arena(len);
         fill(p, len, 2);
-        ssize_t rc = flenp_memory_to_sink(k, &snk, p, len);
+        ssize_t rc = LP(memory_to_sink, k, &snk, p, len);
         check_sink(key, ctx, rc, &cs, k, p, len, valid);
         break;
     }
@@ -263,13 +269,13 @@ enc_case(int k, int e, size_t len, size_t consumed, size_t extra, size_t freesp,
         memset(&lpb, 0, sizeof lpb);
         ssize_t rc;
         if (e == E_BUF_ENC)
-            rc = flenp_buffer_encode(k, &lpb, &b);
+            rc = LP(buffer_encode, k, &lpb, &b);
         else if (e == E_BUF_ENC_N)
-            rc = flenp_buffer_encode_n(k, &lpb, &b, len);
+            rc = LP(buffer_encode_n, k, &lpb, &b, len);
         else if (e == E_BUF_SINK)
-            rc = flenp_buffer_to_sink(k, &snk, &b);
+            rc = LP(buffer_to_sink, k, &snk, &b);
         else
-            rc = flenp_buffer_to_sink_n(k, &snk, &b, len);
+            rc = LP(buffer_to_sink_n, k, &snk, &b, len);
         if (e == E_BUF_ENC || e == E_BUF_ENC_N) {
             check_prefix_obj(key, ctx, (int)rc, &lpb.prefix, k, len, valid);
             if (valid && rc == 0
@@ -290,8 +296,8 @@ enc_case(int k, int e, size_t len, size_t consumed, size_t extra, size_t freesp,
             ByteBuffer before = b;
             size_t sunk = cs.n;
             size_t toomuch = byte_buffer_rest(&b) + 1;
-            ssize_t rc2 = (e == E_BUF_ENC_N) ? flenp_buffer_encode_n(k, &lpb, &b, toomuch)
-                                             : flenp_buffer_to_sink_n(k, &snk, &b, toomuch);
+            ssize_t rc2 = (e == E_BUF_ENC_N) ? LP(buffer_encode_n, k, &lpb, &b, toomuch)
+                                             : LP(buffer_to_sink_n, k, &snk, &b, toomuch);
             if (rc2 >= 0 || b.offset != before.offset || b.used != before.used || cs.n != sunk)
                 vh_fail("n-beyond-unread", key, "%s: n=%zu with %zu unread: rc=%zd offset %zu->%zu emitted %zu", ctx,
                         toomuch, toomuch - 1, rc2, before.offset, b.offset, cs.n - sunk);
@@ -331,10 +337,10 @@ enc_case(int k, int e, size_t len, size_t consumed, size_t extra, size_t freesp,
             LengthPrefixChunks lpc;
             memset(&lpc, 0, sizeof lpc);
             lpc.payload = bc;
-            int rc = flenp_chunks_use(k, &lpc);
+            int rc = LP(chunks_use, k, &lpc);
             check_prefix_obj(key, ctx, rc, &lpc.prefix, k, len, valid);
         } else {
-            ssize_t rc = flenp_chunks_to_sink(k, &snk, &bc);
+            ssize_t rc = LP(chunks_to_sink, k, &snk, &bc);
             check_sink(key, ctx, rc, &cs, k, expect, len, valid);
         }
         VH_COUNT("encoder: chunk list with empty and inactive chunks");
@@ -367,6 +373,10 @@ u_enc(uint64_t idx, void *arg)
                 }
         }
         vh_sig(0x13000000ull ^ ((uint64_t)k << 32) ^ len);
+        if (lp_wrapped) {
+            VH_COUNTN("call through a lenp_* wrapper", lp_wrapped);
+            lp_wrapped = 0;
+        }
     }
     *vh_ncases += n;
 }
@@ -418,7 +428,7 @@ u_huge(uint64_t idx, void *arg)
             unsigned char pre[10];
             size_t pn = ref_prefix(k, len, pre);
             int valid = len <= kmax[k] && len <= (uint64_t)SSIZE_MAX - pn;
-            ssize_t rc = flenp_memory_to_sink(k, &snk, p, (size_t)len);
+            ssize_t rc = LP(memory_to_sink, k, &snk, p, (size_t)len);
             char key[64];
             snprintf(key, sizeof key, "entry=flenp_memory_to_sink kind=%s", kname[k]);
             if (valid) {
@@ -489,7 +499,7 @@ u_hugedec(uint64_t idx, void *arg)
                 ssize_t rc;
                 if (dec == 0) {
                     snprintf(key, sizeof key, "entry=flenp_memory_from_source kind=%s size=huge", kname[k]);
-                    rc = flenp_memory_from_source(k, &src, mem, (size_t)len + 7);
+                    rc = LP(memory_from_source, k, &src, mem, (size_t)len + 7);
                     if (rc != (ssize_t)len || hs.delivered != len)
                         vh_fail("huge-decode", key, "len=%" PRIu64 ": rc=%zd, source delivered %" PRIu64, len, rc, hs.delivered);
                 } else {
@@ -497,7 +507,7 @@ u_hugedec(uint64_t idx, void *arg)
                     ByteBuffer b;
                     /* the memory behind the claimed size is never touched: the source only counts */
                     byte_buffer_set(&b, mem, (size_t)len + 100, 7, 2);
-                    rc = flenp_buffer_from_source(k, &src, &b);
+                    rc = LP(buffer_from_source, k, &src, &b);
                     if (rc != (ssize_t)len || hs.delivered != len || b.used != 7 + (size_t)len || b.offset != 2)
                         vh_fail("huge-decode", key, "len=%" PRIu64 ": rc=%zd used=%zu offset=%zu, source delivered %" PRIu64, len,
                                 rc, b.used, b.offset, hs.delivered);
@@ -506,7 +516,7 @@ u_hugedec(uint64_t idx, void *arg)
                     hs.pn = ref_prefix(k, len, hs.prefix);
                     hs.remaining = len;
                     byte_buffer_set(&b, mem, (size_t)len + 6, 7, 2);
-                    rc = flenp_buffer_from_source(k, &src, &b);
+                    rc = LP(buffer_from_source, k, &src, &b);
                     if (rc != -ENOMEM || b.used != 7 || hs.delivered != 0)
                         vh_fail("huge-nomem", key, "len=%" PRIu64 " with room for one octet less: rc=%zd used=%zu delivered %" PRIu64,
                                 len, rc, b.used, hs.delivered);
@@ -552,7 +562,7 @@ dec_case(int k, int dec, int octet_source, uint64_t cuts, size_t maxper, const s
         ssize_t rc;
         if (dec == D_MEM) {
             unsigned char *dst = vh_arena((size_t)cap);
-            rc = flenp_memory_from_source(k, &src, dst, (size_t)cap);
+            rc = LP(memory_from_source, k, &src, dst, (size_t)cap);
             if ((size_t)cap >= len) {
                 VH_COUNT("decoder: payload delivered");
                 if (rc != (ssize_t)len || memcmp(dst, payloads[f], len) != 0)
@@ -577,7 +587,7 @@ dec_case(int k, int dec, int octet_source, uint64_t cuts, size_t maxper, const s
             fill(mem, pre, 77);
             ByteBuffer b;
             byte_buffer_set(&b, mem, size ? size : 1, pre, off);
-            rc = flenp_buffer_from_source(k, &src, &b);
+            rc = LP(buffer_from_source, k, &src, &b);
             unsigned char head[3];
             fill(head, pre, 77);
             if (memcmp(mem, head, pre) != 0)
@@ -598,7 +608,7 @@ dec_case(int k, int dec, int octet_source, uint64_t cuts, size_t maxper, const s
             Sink snk;
             struct csink cs;
             mk_sink(&snk, &cs, (int)(len % 3));
-            rc = flenp_decode_source_to_sink(k, &src, &snk);
+            rc = LP(decode_source_to_sink, k, &src, &snk);
             VH_COUNT("decoder: payload delivered");
             if (rc != (ssize_t)len || cs.n != len || memcmp(cs.buf, payloads[f], len) != 0)
                 vh_fail("decode-to-sink", key, "%s: rc=%zd sink has %zu octets", ctx, rc, cs.n);
@@ -644,6 +654,10 @@ u_dec(uint64_t idx, void *arg)
                 n += 2;
             }
         vh_sig(0x13300000ull ^ ((uint64_t)k << 32) ^ len);
+        if (lp_wrapped) {
+            VH_COUNTN("call through a lenp_* wrapper", lp_wrapped);
+            lp_wrapped = 0;
+        }
     }
     *vh_ncases += n;
 }
@@ -692,6 +706,7 @@ harness_run(void)
         vh_unit("dec", i, u_dec, NULL);
     for (uint64_t i = 0; i < 18; i++)
         vh_unit("frag", i, u_frag, NULL);
+    vh_require("call through a lenp_* wrapper");
     static const char *req[] = { "encoder: frame emitted to sink", "encoder: prefix object filled",
                                  "encoder: length beyond the kind's maximum refused",
                                  "encoder: chunk list with empty and inactive chunks",
